@@ -1,10 +1,13 @@
 import Pyc.Basic.Proto
 import Pyc.Model.Refs
+import Pyc.Model.DirectTex
 open Pyc.Refs Pyc.Proto
 
 /-- `nodes A:B,C B:C C: …` (id:comma-separated instance_node targets, document order)
     → `loaded=<ids in loading order> library=<loaded ids in document order> broken=<ids left>`
-    `url <#id|text> ; uid:id uid:id …` → `obj:<uid>` | `brokenRef` | `malformed` -/
+    `url <#id|text> ; uid:id uid:id …` → `obj:<uid>` | `brokenRef` | `malformed`
+    `direct key:image key:image …` (properties whose texture names an image, document order)
+    → `params=<surf:im|samp:im …> maps=<key:uid …>` (uid = position of the sampler in params) -/
 def parseDef (w : String) : Option NodeDef :=
   match w.splitOn ":" with
   | [id, refs] => some ⟨id, (refs.splitOn ",").filter (· != "")⟩
@@ -14,6 +17,15 @@ def parseObj (w : String) : Option Obj :=
   match w.splitOn ":" with
   | [u, i] => u.toNat?.map (fun n => ⟨n, i⟩)
   | _ => none
+
+def parsePair (w : String) : Option (String × String) :=
+  match w.splitOn ":" with
+  | [k, im] => some (k, im)
+  | _ => none
+
+def showPId : Pyc.DirectTex.PId → String
+  | .samp im => "samp:" ++ im
+  | .surf im => "surf:" ++ im ++ "-surface"
 
 def handle (_ : Unit) (line : String) : Unit × String :=
   match words line with
@@ -31,6 +43,12 @@ def handle (_ : Unit) (line : String) : Unit × String :=
       | .obj o => ((), s!"obj:{o.uid}")
       | .brokenRef => ((), "brokenRef")
       | .malformed => ((), "malformed")
+    | none => ((), "bad-op")
+  | "direct" :: ps =>
+    match ps.mapM parsePair with
+    | some pairs =>
+      let r := Pyc.DirectTex.run pairs
+      ((), s!"params={joinWith "," (r.params.map (fun q => showPId q.1))} maps={joinWith "," (r.maps.map (fun m => s!"{m.1}:{m.2.2}"))}")
     | none => ((), "bad-op")
   | _ => ((), "bad-op")
 
